@@ -217,6 +217,16 @@ def make_linprog(real_linprog, validate=False):
         Af = [[E.frac(A[i, j]) for j in range(m)] for i in range(n)]
         cf = [E.frac(v) for v in c_arr]
         bz = [E.toz(v) for v in b]
+        # linprog is a function: the same problem asked twice on one path gets the same answer
+        cache = eng.path_state.setdefault("lp_cache", {})
+        ckey = (tuple(tuple(r) for r in Af), tuple(cf), tuple(z.get_id() for z in bz))
+        if ckey in cache:
+            hit = cache[ckey]
+            out = LPResult(hit) if not isinstance(hit, _Tracked) else _Tracked(dict(hit), eng)
+            for k in ("x", "slack"):
+                if dict.get(hit, k) is not None:
+                    dict.__setitem__(out, k, dict.get(hit, k).copy())
+            return out
         proj, key = projection(Af, cf)
         if validate:
             ok = validate_projection(Af, cf, key)
@@ -232,10 +242,12 @@ def make_linprog(real_linprog, validate=False):
         if not eng.branch(feas_c):
             rec["status"] = 2
             res.update(status=2, fun=None, x=None, slack=None, success=False, message="infeasible (stub)")
+            cache[ckey] = res
             return res
         if not lowers:
             rec["status"] = 3
             res.update(status=3, fun=None, x=None, slack=None, success=False, message="unbounded (stub)")
+            cache[ckey] = res
             return res
         rec["status"] = 0
         f = eng.fresh_real("fun")
@@ -260,7 +272,9 @@ def make_linprog(real_linprog, validate=False):
         res.update(status=0, fun=f, success=True, message="optimal (stub)")
         res["x"] = np.array(xs, dtype=object)
         res["slack"] = np.array(slack, dtype=object)
-        return _Tracked(res, eng)
+        out = _Tracked(res, eng)
+        cache[ckey] = out
+        return out
 
     return linprog
 
